@@ -185,16 +185,11 @@ class Env:
                 return obj
         if kind != "FSync" and fid % 3 == 1:
             # an asynchronous factory need not be an `async def` function: a plain callable
-            # returning a coroutine ...
+            # returning a coroutine
             inner = f
-            if fid % 2:
-                def f():          # noqa: F811
-                    return inner()
-            else:                 # ... or a callable object
-                class Factory:
-                    def __call__(self):
-                        return inner()
-                f = Factory()
+
+            def f():          # noqa: F811
+                return inner()
         return f
 
     # ---------- context tasks
